@@ -235,6 +235,9 @@ impl<T: WrappedKey> Occupied<T> for OccupiedEntry<'_, T> {
     type Error = Error;
 
     fn get(&self) -> Result<T, Self::Error> {
+        // The entry owns the descriptor, so its offset is wherever the
+        // previous read left it: always read the key from the start.
+        fs::seek(&self.fd.0, fs::SeekFrom::Start(0))?;
         Ok(cbor::from_reader(&self.fd)?)
     }
 
